@@ -25,7 +25,8 @@ EXPLANATION = (
     "Deferreds each break the property for a concrete schedule (witness in each report)."
     " Also: a failure of the send stage of a batch must reach every caller of that batch before a stage absorbs it (R8, known finding F40); the rules find the handler's helpers by role, nested or lifted out."
 )
-SHARED = [('C09', ['R1'], 'sends made while a batch is in flight are dispatched once it has resolved'), ('C04', ['R3'], 'the acknowledged request contains exactly the keys and values that were sent (null and empty kept apart)'), ('C09', ['R5'], 'an unroutable topic fails the send: every round of the metadata wait counts against the attempt limit'), ('C07', ['R5'], 'every payload handed to the client comes back answered or on the failed list, so every send is delivered a result or retried'), ('C09', ['R3'], 'the reply to a retried payload is delivered to the sends it belongs to (the retry handler gets the table of this attempt)'), ('C19', ['R4'], 'nothing is dispatched, and no send is left pending, once stop() has begun'), ('C09', ['R2'], 'the acknowledged request carries exactly the submitted messages, keys and order'), ('C11', ['R1'], 'a send that expects no reply still completes or fails within the client timeout'), ('C19', ['R2'], 'queue accounting: a queued send is eventually dispatched, so its Deferred fires')]
+SHARED = [('C04', ['R1'], 'a produce request containing exactly those messages: every payload\'s message set is written under its own topic and partition'),
+          ('C09', ['R1'], 'sends made while a batch is in flight are dispatched once it has resolved'), ('C04', ['R3'], 'the acknowledged request contains exactly the keys and values that were sent (null and empty kept apart)'), ('C09', ['R5'], 'an unroutable topic fails the send: every round of the metadata wait counts against the attempt limit'), ('C07', ['R5'], 'every payload handed to the client comes back answered or on the failed list, so every send is delivered a result or retried'), ('C09', ['R3'], 'the reply to a retried payload is delivered to the sends it belongs to (the retry handler gets the table of this attempt)'), ('C19', ['R4'], 'nothing is dispatched, and no send is left pending, once stop() has begun'), ('C09', ['R2'], 'the acknowledged request carries exactly the submitted messages, keys and order'), ('C11', ['R1'], 'a send that expects no reply still completes or fails within the client timeout'), ('C19', ['R2'], 'queue accounting: a queued send is eventually dispatched, so its Deferred fires')]
 ASSUMPTIONS = [
     "Twisted: Deferred.callback(x) with x not a Failure is a success; callback(Failure) behaves as errback",
     "KafkaClient.send_produce_request fires with a list of ProduceResponse (possibly empty/None with acks=0) or fails",
